@@ -71,3 +71,17 @@ def putmask_compacted(a, b):
     out = np.zeros((a.shape[0], b.shape[0]))
     np.putmask(out, np.outer(sel, np.ones(b.shape[0], bool)), vals)
     return out
+
+
+def counts_like_labels(labels, n):
+    out = np.zeros_like(labels)
+    for v in np.unique(labels):
+        out[labels == v] = np.arange(n)
+    return out
+
+
+def values_like_labels(labels, order):
+    out = np.empty_like(labels)
+    for i, j in enumerate(order):
+        out[i] = labels[j]
+    return out
